@@ -206,9 +206,9 @@ void* Arena::_alloc_oneshot(size_t size) noexcept {
     }
 
     ManagedBlock* block_to_free = next;
-    cur_block->next = next;
 
     next = next->next;
+    cur_block->next = next;
     Arena_free(block_to_free);
   }
 
